@@ -198,10 +198,9 @@ def driver_for(cfg):
                 from checks.c08 import build_neighbours
                 keep = build_neighbours()
             if cfg.get('fork') and t == k - 1:
-                import copy as _copy
-                import pickle as _pickle
-                keep = s
-                s = _copy.deepcopy(s) if cfg['fork'] == 'deepcopy' else _pickle.loads(_pickle.dumps(s))
+                cp = choice.safe_copy(s, cfg['fork'])
+                if cp is not None:
+                    keep, s = s, cp
             ids = tuple(x['id'] for x in list(s.get_data()[0]))
             if cfg['pv'] == 1 and t not in ids:
                 raise Violation("C09/p1-newest-not-stored",
